@@ -232,7 +232,9 @@ let () =
        Buffer.clear b;
        (try
           let x = parse_line line in
-          let r = (try dispatch name_s x with Stack_overflow -> Sym (decode_utf8 "model-stack-overflow")) in
+          let r = (try dispatch name_s x with
+                   | Stack_overflow -> Sym (decode_utf8 "model-stack-overflow")
+                   | Out_of_memory -> Gc.compact (); Sym (decode_utf8 "model-out-of-memory")) in
           print_sx b r
         with Parse_error m -> Buffer.add_string b ("(driver-parse-error \"" ^ m ^ "\")"));
        Buffer.add_char b '\n';
